@@ -165,9 +165,13 @@ func c19Y5(c *rt.Ctx) {
 	if len(cancels) == 0 {
 		c.Bail("forkjoin.New creates no cancellable work context")
 	}
+	lin := &c19n4Lin{}
 	directCancel := func(ci ssa.CallInstruction) bool {
+		if _, isB := ci.Common().Value.(*ssa.Builtin); isB || ci.Common().IsInvoke() {
+			return false
+		}
 		for _, k := range cancels {
-			if c19HasOrigin(ci.Common().Value, k) {
+			if lin.hasOrigin(ci.Common().Value, k) {
 				return true
 			}
 		}
@@ -200,6 +204,7 @@ func c19Y5(c *rt.Ctx) {
 			case *ssa.Function:
 				g = x
 			}
+			g = an.Orig(g)
 			if g == nil || g.Pkg != newFn.Pkg || len(g.Blocks) == 0 {
 				continue
 			}
@@ -252,13 +257,27 @@ func c19Y5(c *rt.Ctx) {
 		case *ssa.Function:
 			wfn = x
 		}
+		wfn = an.Orig(wfn)
 		if wfn == nil || len(wfn.Blocks) == 0 {
 			continue
 		}
+		// the worker body: the goroutine's function and the functions / methods of the package it calls
+		chain := c19n4Chain(wfn, 3)
+		holder := map[*ssa.Function]bool{}
 		var wcalls []ssa.CallInstruction
-		for _, in2 := range an.Instrs(wfn, true) {
-			if ci, ok := in2.(ssa.CallInstruction); ok && !ci.Common().IsInvoke() && ci.Common().StaticCallee() == nil && c19HasOrigin(ci.Common().Value, work) {
-				wcalls = append(wcalls, ci)
+		for _, cf := range chain {
+			holder[cf] = true
+			for _, in2 := range an.Instrs(cf, true) {
+				ci, ok := in2.(ssa.CallInstruction)
+				if !ok || ci.Common().IsInvoke() || ci.Common().StaticCallee() != nil {
+					continue
+				}
+				if _, isB := ci.Common().Value.(*ssa.Builtin); isB {
+					continue
+				}
+				if lin.hasOrigin(ci.Common().Value, work) {
+					wcalls = append(wcalls, ci)
+				}
 			}
 		}
 		if len(wcalls) == 0 {
@@ -303,11 +322,28 @@ func c19Y5(c *rt.Ctx) {
 		}
 		// without fail-fast a worker never cancels the shared work context
 		for _, wc := range wcalls {
-			if wc.Parent() != wfn {
+			if !holder[wc.Parent()] {
 				c.Unsure("forkjoin worker cancels only when failing fast", wc.Pos(), "the work function is called from a nested literal of the worker")
 				continue
 			}
-			wl := an.InnermostLoop(wfn, wc.Block())
+			// the functions between the goroutine and the one calling the work function must not cancel on their own
+			// (they run whatever the outcome of the work function)
+			outer := false
+			for _, cf := range chain {
+				if cf == wc.Parent() {
+					continue
+				}
+				for _, in2 := range an.Instrs(cf, true) {
+					if ci, ok := in2.(ssa.CallInstruction); ok && directCancel(ci) {
+						outer = true
+					}
+				}
+			}
+			if outer {
+				c.Unsure("forkjoin worker cancels only when failing fast", wc.Pos(), "a function of the worker other than the one calling the work function calls the cancel function; its guard is not followed")
+				continue
+			}
+			wl := an.InnermostLoop(wc.Parent(), wc.Block())
 			atom := ffAtom
 			out := map[string]bool{}
 			if blockCancels(wc.Block(), wc) {
@@ -344,6 +380,111 @@ func c19Y5(c *rt.Ctx) {
 	}
 	if nWorkers == 0 {
 		c.Bail("forkjoin.New: no goroutine literal calling the work function found")
+	}
+	c19n4CancelWaits(c, newFn, lin)
+}
+
+// c19n4CancelWaits: provide returns the first success through `defer cancel()`; the cancel function of New must
+// not block (channel receive, select without default, WaitGroup.Wait) unless options.waitOnCancel was asked for,
+// and waitOnCancel is off by default -- otherwise the first success is held back until every node's request ended.
+func c19n4CancelWaits(c *rt.Ctx, newFn *ssa.Function, lin *c19n4Lin) {
+	const key = c19FJ + ".options.waitOnCancel"
+	const name = "forkjoin cancel waits only with WithWaitOnCancel"
+	// default
+	// (no store: the zero value, false)
+	for _, st := range c19FieldStores(newFn, key) {
+		if b, ok := c19BoolConst(an.Resolve(st.Val)); !ok {
+			c.Unsure(name, st.Pos(), "the default of options.waitOnCancel set in New is not a constant")
+			return
+		} else if b {
+			c.Bad(name, st.Pos(), "options.waitOnCancel is on by default: the cancel deferred by provide waits for every node's request to finish before the first success is returned")
+			return
+		}
+	}
+	var cfn []*ssa.Function
+	for _, r := range c19Returns(newFn) {
+		vals := c19RetVals(r)
+		if len(vals) != 3 {
+			c.Unsure(name, newFn.Pos(), "New does not return (fork, join, cancel)")
+			return
+		}
+		for _, o := range lin.origins(vals[2]) {
+			var g *ssa.Function
+			switch x := o.(type) {
+			case *ssa.MakeClosure:
+				g, _ = x.Fn.(*ssa.Function)
+			case *ssa.Function:
+				g = x
+			}
+			if g != nil && g.Synthetic != "" && len(g.Blocks) > 0 {
+				// bound method wrapper: the method it calls
+				var inner *ssa.Function
+				for _, in := range an.Instrs(g, false) {
+					if ci, ok := in.(ssa.CallInstruction); ok && !ci.Common().IsInvoke() && ci.Common().StaticCallee() != nil {
+						inner = ci.Common().StaticCallee()
+					}
+				}
+				g = inner
+			}
+			g = an.Orig(g)
+			if g == nil || len(g.Blocks) == 0 || c19n4Top(g).Pkg != newFn.Pkg {
+				c.Unsure(name, newFn.Pos(), "the cancel function returned by New is not a function of the package that is followed")
+				return
+			}
+			cfn = append(cfn, g)
+		}
+	}
+	if len(cfn) == 0 {
+		c.Unsure(name, newFn.Pos(), "the cancel function returned by New is not resolved")
+		return
+	}
+	blocks := func(b *ssa.BasicBlock) bool {
+		for _, in := range b.Instrs {
+			switch x := in.(type) {
+			case *ssa.UnOp:
+				if x.Op == token.ARROW {
+					return true
+				}
+			case *ssa.Select:
+				if x.Blocking {
+					return true
+				}
+			case ssa.CallInstruction:
+				if f := x.Common().StaticCallee(); f != nil && !x.Common().IsInvoke() {
+					if _, isGo := in.(*ssa.Go); !isGo && an.FuncName(f) == "sync.WaitGroup.Wait" {
+						return true
+					}
+				}
+			}
+		}
+		return false
+	}
+	atom := func(_ *c19Walker, v ssa.Value) (int, bool, bool) {
+		if c19FieldLoad(v, key) {
+			return 0, false, true
+		}
+		return 0, false, false
+	}
+	for _, g := range cfn {
+		out := map[string]bool{}
+		if blocks(g.Blocks[0]) {
+			out["waits"] = true
+		} else {
+			w := &c19Walker{atom: atom, val: []bool{false},
+				stop: func(b *ssa.BasicBlock, _ *c19Walker) (string, bool) { return "waits", blocks(b) },
+				ret:  func(*ssa.Return, *c19Walker) string { return "returns" }}
+			w.run(g.Blocks[0], nil)
+			out = w.out
+		}
+		switch {
+		case out["waits"]:
+			c.Bad(name, g.Pos(), "with options.waitOnCancel == false (provide does not ask for it) the cancel function still blocks on a channel / wait group: "+
+				"the cancel deferred by provide holds the first success back until every node's request has ended")
+		case c19HasUnsure(out) != "":
+			c.Unsure(name, g.Pos(), "the cancel function cannot be followed: "+strings.TrimPrefix(c19HasUnsure(out), "?"))
+		default:
+			c.Good(name, g.Pos(), "outcomes with waitOnCancel off: "+c19Set(out))
+		}
 	}
 }
 
